@@ -576,6 +576,22 @@ func (c *Ctx) accessorStep(t *TagInfo, method string, withDelim bool) (string, b
 			}
 		}
 	}
+	// if n := len(x); n > 0 && n < w { return numericStringField(x, w) }; return alphaField(x, w)
+	if len(body) == 2 && !takesOpts && !withDelim {
+		if r, isRet := body[1].(*ast.ReturnStmt); isRet && len(r.Results) == 1 {
+			if m, args, okc := callOn(r.Results[0], recv); okc && m == "alphaField" && len(args) == 2 {
+				idx := elemOf(args[0])
+				n, okn := intLit(args[1])
+				if idx >= 0 && okn {
+					x := c.src1(args[0])
+					want := fmt.Sprintf("if n := len(%s); n > 0 && n < %d { return %s.numericStringField(%s, %d) }", x, n, recv, x, n)
+					if c.src1(body[0]) == want {
+						return fmt.Sprintf("FAlphaZ %d %d", idx, n), true
+					}
+				}
+			}
+		}
+	}
 	// output := formatAlphaField(x, n, options); if output == "*" { output = "" }; return output
 	if len(body) == 3 && takesOpts {
 		if as, isAs := body[0].(*ast.AssignStmt); isAs && len(as.Lhs) == 1 && isIdent(as.Lhs[0], "output") && len(as.Rhs) == 1 {
